@@ -440,6 +440,13 @@ func UnionClassName(gt *dsl.GeneralizedType) (className string, typeParameters s
 	return strings.Join(cases, "Or"), GetOpenGenericTypeParameters(gt)
 }
 
+// Whether gt is the union that the named type itself defines (possibly as the items of a vector, array or map),
+// as opposed to a union nested deeper inside it, which has a class of its own.
+func IsUnionOfNamedType(nt *dsl.NamedType, gt *dsl.GeneralizedType) bool {
+	ntgt, ok := nt.Type.(*dsl.GeneralizedType)
+	return ok && len(ntgt.Cases) > 0 && len(ntgt.Cases) == len(gt.Cases) && ntgt.Cases[0] == gt.Cases[0]
+}
+
 func UnionSyntax(gt *dsl.GeneralizedType) string {
 	className, typeParameters := UnionClassName(gt)
 	var syntax string
